@@ -57,8 +57,11 @@ def main(argv=None):
         try:
             mod.run(repo, chk, tier)
         except AnalysisError as e:
-            if not chk.violations:
-                raise
+            from sa.report import load_known
+
+            known = load_known(pid)
+            if not [v for v in chk.violations if v["key"] not in known]:
+                raise  # only known findings (or nothing) so far: the modelling failure is not explained by a violation
             # a violation found so far explains why a later kernel can no longer be modelled
             chk.info("analysis stopped early after the violation(s) above: %s" % e)
             chk.min_counts.clear()
